@@ -185,7 +185,7 @@ mech("openapi-short-schema-names",
 
 mech("openapi-ref-with-slash",
  "flattened discriminated oneof: variant schema names are built from oneof_value; a value containing '/' yields an unresolvable $ref",
- [("C18","oas/feat/oneof_flatten/*",["unresolved-ref"],None)])
+ [("C18","oas/{feat,feat-2svc,feat-shared}/oneof_flatten/*",["unresolved-ref"],None)])
 
 mech("mock-typed-assignments",
  "mock generator assigns its int64/float64/bool/string example selectors to fields of other Go types (int32, float32, optional pointers, repeated slices) and addresses oneof members as plain fields: the mock file does not compile",
